@@ -16,7 +16,7 @@ import os
 
 TMAX = 3
 THOROUGH = os.environ.get("VERIF_TIER") == "thorough"
-TDHCP = 3 if THOROUGH else 1   # table sizes for the expensive _dhcp/update contracts
+TDHCP = 3 if THOROUGH else 2   # table sizes for the expensive _dhcp contracts
 DEFAULT = 0o4444
 G = {"g_writes": Const(0), "g_to": Const(0), "g_type": Const(0), "g_h_to": Const(0), "g_h_from": Const(0),
      "g_h_type": Const(0), "g_h_res": Const(0), "g_msg": Const(b""), "g_to2": Const(0), "g_tlo": Const(0), "g_thi": Const(255)}
@@ -293,6 +293,13 @@ def ens_lookup_reply(self, old_self, result, exc):
     return implies(result == 196 or result == 198, self.g_writes == 1)
 
 
+def _req_frame(via):
+    """frame_buf holding an address request that arrived directly (0o4444) or through a relay"""
+    hdr = Obj("structs:RF24NetworkHeader", {"from_node": via, "to_node": Int(0, 0xFFFF), "frame_id": Int(0, 0xFFFF),
+                                            "message_type": Int(0, 255), "reserved": Int(0, 255)})
+    return Obj("structs:RF24NetworkFrame", {"header": hdr, "message": Bytes(0, 24)})
+
+
 R = "spec.mesh:"
 MPOL = dict(POL)
 MPOL.update({
@@ -306,9 +313,11 @@ RM = "rf24_mesh:RF24Mesh."
 
 CONTRACTS = [
 ] + [
-    Contract("C16._dhcp[table=%d]" % n, RM + "_dhcp", {"self": mesh_schema(table=DictOf(n, Int(1, 255), Int(1, 4095)), **MASTER)},
+    Contract("C16._dhcp[table=%d,%s]" % (n, vn), RM + "_dhcp",
+             {"self": mesh_schema(table=DictOf(n, Int(1, 255), Int(1, 4095)), frame=_req_frame(via), **MASTER)},
              requires=[R + "req_dhcp"], ensures=[("alloc", R + "ens_dhcp")], raises=(), policy=MPOL, props=["C16"],
-             replayable=False, max_paths=20000) for n in range(TDHCP + 1)
+             replayable=False, max_paths=20000)
+    for n in range(TDHCP + 1) for (vn, via) in (("direct", Const(DEFAULT)), ("relayed", Int(0, 4095)))
 ] + [
     Contract("C16.set_address", RM + "set_address",
              {"self": Obj("rf24_mesh:RF24Mesh", {"dhcp_dict": OneOf(*[DictOf(n, Int(0, 255), Int(0, 4095)) for n in range(TMAX + 1)])}),
